@@ -30,7 +30,7 @@ CHECKS = [
         NOTE + "Not decided: that ILLsimplex_infcertificate produces a ray that passes (completeness).",
         TECH, "DESIGN.md 4/C02"),
     chk("C05", "proof",
-        "Invalidation half: every public edit wrapper of qsopt.c under contract: success drops the cached solution and marks the problem modified (I1), success of a matrix/dimension edit clears the factorization flag (I2), failure leaves cache/status/flag/basis untouched (I3); unbounded (loop-free) modular proofs with the library callee as a nondeterministic stub. Also: the solve entry points QSopt_primal / QSopt_dual / opt_work (a solve re-reads the problem unless the factorization flag is set), the accessor wrappers (a modified problem serves no solution), ILLlib_chgsense / chgrange / delrows updating every dependent field (bounded), QSchange_senses / QSchange_sense keeping the stored basis loadable (no 'at upper' status for a row that is no longer ranged).",
+        "Invalidation half: every public edit wrapper of qsopt.c under contract: success drops the cached solution and marks the problem modified (I1), success of a matrix/dimension edit clears the factorization flag (I2), failure leaves cache/status/flag/basis untouched (I3); unbounded (loop-free) modular proofs with the library callee as a nondeterministic stub -- except QSchange_senses, whose row-list walk is closed by a loop invariant with the list length capped at 64 (labelled bounded). Also: the solve entry points QSopt_primal / QSopt_dual / opt_work (a solve re-reads the problem unless the factorization flag is set), the accessor wrappers (a modified problem serves no solution), ILLlib_chgsense / chgrange / delrows updating every dependent field (bounded), QSchange_senses / QSchange_sense keeping the stored basis loadable (no 'at upper' status for a row that is no longer ranged).",
         NOTE + "Not decided: 'the next solve equals a from-scratch solve' (solver correctness).",
         TECH, "DESIGN.md 4/C05"),
     chk("C06", "proof",
